@@ -498,28 +498,39 @@ func runC29(c *an.Ctx) {
 	}
 	c.Check(excl, "member|calcParticipantPeers|marker-excluded", "the out-of-range marker returned by calcParticipant is tested before the id is used", c.P.Rel(cpp.Pos()), "no comparison of the result with the marker constant")
 	// (4) proposers = peers[0:c+1]
-	okProp := false
+	// every value the first result can take (through a private role-splitting helper too) is peers[0 : C+1]
+	okProp, nProp := true, 0
 	for _, r := range an.Returns(cpp) {
-		sl, ok := r.Results[0].(*ssa.Slice)
-		if !ok {
-			continue
-		}
-		lowZero := sl.Low == nil
-		if k, isK := sl.Low.(*ssa.Const); isK && k.Value != nil && k.Value.String() == "0" {
-			lowZero = true
-		}
-		if bo, isB := sl.High.(*ssa.BinOp); isB && bo.Op == token.ADD && lowZero {
-			if k, isK := bo.Y.(*ssa.Const); isK && k.Value != nil && k.Value.String() == "1" {
-				x := bo.X
-				if cv, isC := x.(*ssa.Convert); isC {
-					x = cv.X
-				}
-				if f := fieldOfLoad(x); f != nil && f.Name() == "C" {
-					okProp = true
+		for _, d := range an.Deref(cpp, r.Results[0]) {
+			if k, isK := d.(*ssa.Const); isK && k.Value == nil {
+				continue // nil on an error return
+			}
+			nProp++
+			sl, ok := d.(*ssa.Slice)
+			if !ok {
+				okProp = false
+				continue
+			}
+			lowZero := sl.Low == nil
+			if k, isK := sl.Low.(*ssa.Const); isK && k.Value != nil && k.Value.String() == "0" {
+				lowZero = true
+			}
+			good := false
+			if sl.High != nil && lowZero {
+				if base, off, okL := linear(sl.High); okL && off == 1 {
+					x := an.ResolveActual(cpp, base)
+					if cv, isC := x.(*ssa.Convert); isC {
+						x = cv.X
+					}
+					if f := fieldOfLoad(x); f != nil && f.Name() == "C" {
+						good = true
+					}
 				}
 			}
+			okProp = okProp && good
 		}
 	}
+	okProp = okProp && nProp >= 1
 	c.Check(okProp, "size|calcParticipantPeers|proposers-are-first-C+1", "the proposer set is peers[0 : C+1] of the duplicate-free participant list (C+1 distinct proposers)", c.P.Rel(cpp.Pos()), "first result is not peers[0:int(chain.C)+1]")
 }
 
